@@ -137,7 +137,9 @@ void vf_init(int argc, char **argv, const char *harness) {
     sa.sa_handler = vtalrm_handler; sigaction(SIGVTALRM, &sa, NULL);
     /* sanitizer builds run with handle_segv=0 etc., so fatal signals always come here and
      * are recorded with the current case (the driver restarts the shard after that case) */
-    sa.sa_handler = crash_handler; sa.sa_flags = SA_RESETHAND;
+    /* own signal stack: a stack overflow (unbounded recursion in the code under test) must still be recorded as a crash of the current case */
+    { static char altstack[1 << 16]; stack_t ss; memset(&ss, 0, sizeof ss); ss.ss_sp = altstack; ss.ss_size = sizeof altstack; sigaltstack(&ss, NULL); }
+    sa.sa_handler = crash_handler; sa.sa_flags = SA_RESETHAND | SA_ONSTACK;
     sigaction(SIGSEGV, &sa, NULL); sigaction(SIGBUS, &sa, NULL);
     sigaction(SIGFPE, &sa, NULL); sigaction(SIGILL, &sa, NULL);
     sigaction(SIGABRT, &sa, NULL);
